@@ -1,7 +1,7 @@
 CONSTANTS
   Addrs = {1, 2, 3, 4, 5}
   Keeps = {99, 0, 1, 2, 3}
-  Vals = {1, 2}
+  Vals = {1}
   Variant = "intended"
   MaxDepth = 2
   Throws = {FALSE, TRUE}
